@@ -132,6 +132,24 @@ for it in range(int(P.get("n", 4))):
                 bad.append({"what": "evolve_exact bookkeeping", "form": form, "space": space, "offset": offset, "dt": dt, "input_unchanged": bool(unchanged),
                             "relerr_total": e, "phase_on_result": bool(phase_ok), "coeff_in_before": str(c0), "coeff_in_after": str(complex(st.coeff)),
                             "coeff_out": str(complex(out.coeff))})
+    # imaginary evolve_dt through Mps/MpDm.evolve_exact: exp(-tau H_loc) (un-normalised), decay factor in the prefactor
+    for form in ("mps", "mpdm"):
+        np.random.seed(int(rs.randint(0, 2 ** 31 - 1)))
+        st = Mps.random(model, 0, 4, percent=1.0)
+        if form == "mpdm":
+            st = MpDm.from_mps(st)
+        psi = dense_of(st)
+        tau = float(rs.uniform(0.2, 1.0))
+        n_or += 1
+        try:
+            out = st.evolve_exact(h_mpo, -1j * tau, "GS")
+            u = local_dense(kinds, -tau, 0.0, False)
+            ref = u @ psi if form == "mps" else psi @ u
+            e = relerr(dense_of(out), ref)
+            if not e <= 1e-10:
+                bad.append({"what": "evolve_exact imaginary dt", "form": form, "tau": tau, "relerr": e})
+        except Exception as ex:
+            bad.append({"what": "evolve_exact imaginary dt", "form": form, "tau": tau, "exc": repr(ex)[:200]})
     # ------------------------------------------------------------------ ThermalProp exact=True
     ndiag = [np.diag(np.arange(d, dtype=float)) for d in dims]
 
